@@ -221,6 +221,21 @@ def run_impl(exe, cases, workdir, tag, timeout=1800):
         if crashes > 200:
             results.extend(["CRASH(giving up)"] * (len(cases) - len(results)))
             break
+    # a case that ran out of time is run once more on its own with a six times longer limit before it counts: on a loaded
+    # machine (several checks at once) the 20 s limit of a many-thread case says nothing; a real non-termination times out again
+    late = [i for i, r in enumerate(results) if r in ("TIMEOUT", "CRASH(timeout)")][:20]
+    for i in late:
+        one = os.path.join(workdir, "cases_%s_retry.txt" % tag)
+        with open(one, "w") as f:
+            f.write(cases[i] + "\n")
+        try:
+            p = subprocess.run([exe, one, "0"], stdout=subprocess.PIPE, stderr=subprocess.DEVNULL, text=True, timeout=400,
+                               errors="replace", env=dict(os.environ, VERIF_CASE_TIMEOUT="120"))
+            lines = [l for l in p.stdout.split("\n") if l != ""]
+            if lines and lines[0] != "TIMEOUT":
+                results[i] = lines[0]
+        except subprocess.TimeoutExpired:
+            pass
     return results
 
 
